@@ -583,7 +583,7 @@ def o7(ctx):
     # the tokenizer hands `$name` without the `$` to Slot::named
     tk = [b for b in crate.free_fn("tokenize") if (b.file or "").endswith("parse.rs")]
     if tk:
-        t = tk[0]
+        t = mir.inline_view(crate, tk[0], keep=("named", "crop_ident"))       # (the per-token part may live in a `next_token` helper)
         okn = False
         for c in t.calls:
             if c.callee and c.callee.target == "slot::Slot::named":
